@@ -335,6 +335,48 @@ def _enclosing_conds(ctx, f, stmt_or_expr):
     return tuple(out)
 
 
+def _always_assigns(stmts, var: str) -> bool:
+    for s in stmts or []:
+        if isinstance(s, ast.Assign) and any(isinstance(t, ast.Name) and t.id == var for t in s.targets):
+            return True
+        if isinstance(s, (ast.AnnAssign, ast.AugAssign)) and isinstance(s.target, ast.Name) and s.target.id == var and getattr(s, "value", None) is not None:
+            return True
+        if isinstance(s, ast.If) and _always_assigns(s.body, var) and _always_assigns(s.orelse, var):
+            return True
+        if isinstance(s, ast.With) and _always_assigns(s.body, var):
+            return True
+    return False
+
+
+def _survival_conds(ctx, f, def_stmt: ast.AST, use: ast.AST, var: str) -> tuple:
+    """Conditions that hold whenever the definition made by `def_stmt` is still the value of `var` at `use`: an `if`
+    statement between the two (a later sibling of the definition) one branch of which always re-assigns `var` was left
+    through its other branch.  `v = A; if c: v = B` gives A under `not c`, like `v = B if c else A`."""
+    from .model import parent
+
+    if not isinstance(def_stmt, ast.stmt):
+        return ()
+    par = parent(def_stmt)
+    lst = None
+    for fld in ("body", "orelse", "finalbody"):
+        cand = getattr(par, fld, None)
+        if isinstance(cand, list) and any(x is def_stmt for x in cand):
+            lst = cand
+    if lst is None:
+        return ()
+    out = []
+    i = next(k for k, x in enumerate(lst) if x is def_stmt)
+    for s in lst[i + 1:]:
+        if any(x is use for x in ast.walk(s)):
+            break
+        if isinstance(s, ast.If):
+            b, o = _always_assigns(s.body, var), _always_assigns(s.orelse, var)
+            if b != o:
+                a, p = norm_cond(ctx.X.value_at(f, s.test))
+                out.append((a, (not p) if b else p))
+    return tuple(out)
+
+
 def gated_values(ctx, f, expr: ast.AST, _depth: int = 0, _seen=None, strip_wrappers: bool = False):
     """[(conditions, leaf term)] for the value of ``expr``: local variables are followed to
     their definitions (each with the conditions of its enclosing if statements), conditional
@@ -354,7 +396,8 @@ def gated_values(ctx, f, expr: ast.AST, _depth: int = 0, _seen=None, strip_wrapp
                 for d in sorted(simple, key=lambda d: d.id):
                     if d.id in _seen:
                         continue
-                    conds = _enclosing_conds(ctx, f, d.node.stmt if getattr(d.node, "stmt", None) is not None else d.value)
+                    dstmt = d.node.stmt if getattr(d.node, "stmt", None) is not None else d.value
+                    conds = _enclosing_conds(ctx, f, dstmt) + _survival_conds(ctx, f, dstmt, expr, expr.id)
                     for c2, leaf in gated_values(ctx, f, d.value, _depth + 1, _seen | {d.id}, strip_wrappers):
                         out.append((conds + c2, leaf))
                 return _feasible(out)
